@@ -26,6 +26,8 @@ Decides:
                     name-major lookups make `--a -b` and `-b --a` pick different first items, which is what many() and the leftmost-wins rule order by.
  R registry        collect_shorts descends through every wrapper (Subsection, Decorated, ..), so the short names of every alternative are tokenized
                     the same way however the alternative is wrapped (shared with C02).
+ O name once      the spellings of a command are tried until the first one matches and not further (shared with C08); adjacent_scope scans the scope
+                    from its first item (shared with C19).
 Does not decide: ordering of values collected under many/some."""
 import re
 from core import *
